@@ -28,7 +28,10 @@ RULE = ('transform cases: every shape in {1..9}^2 (all parity pairs, square and 
         '(quick) / ..513 (thorough) with random real Q and shifts, NumPy double-sum oracle, size-scaled float32 tolerance; histories: '
         'systematic pairs (precision, dtype, direction, one-axis variants, argument forms, forward/backprop) and random sequences '
         '(<= 40 ops) of dft2/idft2/czt2/iczt2/dft2_backprop/idft2_backprop over pools of one-axis variants with random real Q, clear(), '
-        'precision switches, each result compared with a fresh executor and the input array checked unmodified.  Non-trivial = not '
+        'precision switches, nbytes() queries, and transforms requested through prysm.propagation.focus_fixed_sampling / '
+        'unfocus_fixed_sampling (physical units, same shared executors, one of them on the grid of a direct call), call/clear()/same call '
+        'for every entry point; each result compared with a fresh executor and the input array checked unmodified; per-dictionary entry '
+        'counts (Ein, Eout, components) and "no KeyError" compared with the Lean dictionary machine (histogram cache2_model:*).  Non-trivial = not '
         '1x1->1x1; distinct = distinct (item, input) tuples')
 ASSUMPTIONS = ['scipy.fft.fft/ifft/fft2/ifft2 compute the (iterated 1-D) DFT sums with the stated normalisation; fftshift/ifftshift '
                'rotate by n//2; next_fast_len(k) >= k (modelled as parameters with that contract)',
@@ -377,12 +380,12 @@ def correspondence(ctx):
     ft.mdft.clear()
     ft.czt.clear()
     try:
-        _transforms(ctx, ft, pr, config)
-        _fft_route(ctx, ft, pr, config)
-        _czt_basis(ctx, ft, pr, config)
-        _dispatch(ctx, ft, pr, config)
-        _large(ctx, ft, pr, config)
-        _histories(ctx, ft, pr, config)
+        import os, sys, time
+        for stream in (_transforms, _fft_route, _czt_basis, _dispatch, _large, _histories):
+            t0 = time.time()
+            stream(ctx, ft, pr, config)
+            if os.environ.get('VERIF_PROFILE'):
+                print(f'profile C01 {stream.__name__}: {time.time() - t0:.1f} s', file=sys.stderr)
     finally:
         config.precision = 64
         ft.mdft.clear()
@@ -390,8 +393,8 @@ def correspondence(ctx):
 
 
 def _transforms(ctx, ft, pr, config):
-    reps = ctx.scale(7, 140)
-    nbig = ctx.scale(33, 660)
+    reps = ctx.scale(4, 140)
+    nbig = ctx.scale(18, 660)
     if ctx.widen:
         reps = max(reps, 12)
     shapes = list(itertools.product(range(1, 10), repeat=2))
@@ -513,7 +516,7 @@ def _fft_route(ctx, ft, pr, config):
             dtype = ['complex128', 'float64', 'complex64', 'bool', 'float32', 'int64'][int(ctx.rng.integers(6))]
             cases.append({'shape': list(shp), 'Q': Q, 'dtype': dtype, 'seed': int(ctx.rng.integers(1 << 30)),
                           'dir': -1 if (i + rep) % 2 == 0 else 1, 'layout': gen_layout(ctx.rng)})
-    for _ in range(ctx.scale(10, 120)):
+    for _ in range(ctx.scale(6, 120)):
         shp = (int(ctx.rng.integers(10, 25)), int(ctx.rng.integers(10, 18)))
         cases.append({'shape': list(shp), 'Q': [1, 2, 1.5][int(ctx.rng.integers(3))], 'dtype': 'complex128',
                       'seed': int(ctx.rng.integers(1 << 30)), 'dir': -1 if ctx.rng.random() < 0.5 else 1})
@@ -606,7 +609,7 @@ def _large(ctx, ft, pr, config):
     """realistic sizes (the Lean oracle is an interpreted O(n^4) sum, so the oracle here is the NumPy double sum `spec2_numpy`):
     catches edits that only act beyond the small-scope sizes; single-precision tolerance scales with the axis length"""
     hi = ctx.scale(140, 513)
-    for _ in range(ctx.scale(10, 120)):
+    for _ in range(ctx.scale(6, 120)):
         c = large_case(ctx.rng, hi)
         for method in ('mdft', 'czt'):
             cc = dict(c, method=method)
@@ -711,7 +714,7 @@ def check_dispatch(c, verbose=False, oracle=None):
 def _dispatch(ctx, ft, pr, config):
     """the propagation-level entry points (functions and Wavefront methods, both engines) against the textbook sum on the
     PHYSICAL grid: per-axis Q and shift conversion are computed independently here (oracle: Lean `spec2`)"""
-    cases = [dispatch_case(ctx.rng) for _ in range(ctx.scale(80, 800))]
+    cases = [dispatch_case(ctx.rng) for _ in range(ctx.scale(50, 800))]
     lines = []
     for c in cases:
         Q, sh, d = dispatch_expect(c)
@@ -753,6 +756,12 @@ def _dispatch(ctx, ft, pr, config):
 # ------------------------------------------------------------------------------------------------
 # histories
 # ------------------------------------------------------------------------------------------------
+# the reference protocol of the hand model (Model/C01.lean: mdftProtoRef, cztProtoRef)
+PROTO_REF = {'mdft': {'stores': ['Ein', 'Eout'], 'probe': ['Ein'], 'miss': ['Ein', 'Eout'], 'use': ['Ein', 'Eout'], 'clear': ['Ein', 'Eout']},
+             'czt': {'stores': ['components'], 'probe': ['components'], 'miss': ['components'], 'use': ['components'],
+                     'clear': ['components']}}
+
+
 def _norm_key(method, direction, shape, Q, MN, shift, precision, dtype):
     """the key fields the MODEL says a call depends on (independent of the implementation's _key)"""
     Qy, Qx = qpair(Q)
@@ -794,12 +803,35 @@ def gen_history(r, length):
         else:
             v['shift'][ax] = [0, 1, -2.5, 0.75][int(r.integers(4))]
         pool.append(v)
+    # transforms requested through prysm.propagation (physical units; a small pool so that their keys repeat; the first one asks
+    # for exactly the grid of pool[0] so that it shares cache entries with the direct calls)
+    disp_pool = []
+    if r.random() < 0.7:
+        for i_ in range(int(r.integers(1, 4))):
+            c = dispatch_case(r)
+            if i_ == 0 and r.random() < 0.6:
+                b = pool[0]
+                qy, qx = qpair(tuple(b['Q']) if isinstance(b['Q'], list) else b['Q'])
+                if abs(qy * b['shape'][0] - qx * b['shape'][1]) < 1e-12 * qy * b['shape'][0]:   # one output spacing serves both axes
+                    c.update(shape=list(b['shape']), samples=list(b['samples']))
+                    c['out_dx'] = c['wvl'] * c['efl'] / (b['shape'][0] * c['dx'] * qy)
+                    c['shift'] = [float(b['shift'][0]) * c['out_dx'], float(b['shift'][1]) * c['out_dx']]
+            disp_pool.append(c)
     ops = []
     for _ in range(length):
         x = r.random()
         if x < 0.08:
             ops.append({'op': 'clear', 'which': ['mdft', 'czt'][int(r.integers(2))]})
-        elif x < 0.25:
+        elif x < 0.12:
+            ops.append({'op': 'nbytes', 'which': ['mdft', 'czt'][int(r.integers(2))]})
+        elif x < 0.15:
+            p = pool[int(r.integers(len(pool)))]
+            ops.append(dict(p, op='bad', method=['mdft', 'czt'][int(r.integers(2))], dir=-1 if r.random() < 0.5 else 1,
+                            kind=['object', 'str'][int(r.integers(2))]))
+        elif x < 0.22 and disp_pool:
+            ops.append({'op': 'disp', 'method': ['mdft', 'czt'][int(r.integers(2))],
+                        'case': dict(disp_pool[int(r.integers(len(disp_pool)))], seed=int(r.integers(1 << 30)))})
+        elif x < 0.34:
             ops.append({'op': 'precision', 'value': [32, 64][int(r.integers(2))]})
         else:
             p = pool[int(r.integers(len(pool)))]
@@ -813,6 +845,16 @@ def gen_history(r, length):
     return ops
 
 
+def _dict_sizes(ft):
+    """(len(mdft.Ein), len(czt.components), len(mdft.Eout)); -1 where the attribute is not a sized container (renamed ...)"""
+    def ln(obj, name):
+        try:
+            return len(getattr(obj, name))
+        except Exception:
+            return -1
+    return (ln(ft.mdft, 'Ein'), ln(ft.czt, 'components'), ln(ft.mdft, 'Eout'))
+
+
 def run_history(ops, ft, config, collect=None):
     """execute a history on the SHARED executors; after every call compare with a FRESH executor under the same
     configuration.  returns (first failure description or None, list of cache sizes after each op)"""
@@ -822,12 +864,66 @@ def run_history(ops, ft, config, collect=None):
     prec = 64
     fail = None
     sizes = []
+    pr = _impl()[1]
     for idx, op in enumerate(ops):
         if op['op'] == 'clear':
             (ft.mdft if op['which'] == 'mdft' else ft.czt).clear()
         elif op['op'] == 'precision':
             prec = op['value']
             config.precision = prec
+        elif op['op'] == 'nbytes':
+            # a pure query between transforms: must answer, and must leave every dictionary as it was
+            before = _dict_sizes(ft)
+            try:
+                nb = (ft.mdft if op['which'] == 'mdft' else ft.czt).nbytes()
+                if not (isinstance(nb, (int, np.integer)) and nb >= 0) or (nb == 0) != (before[0 if op['which'] == 'mdft' else 1] == 0):
+                    fail = fail or f'op {idx}: {op["which"]}.nbytes() = {nb!r} with {before} cached entries (mdft.Ein, czt.components, mdft.Eout)'
+            except Exception as ex:
+                fail = fail or f'op {idx}: {op["which"]}.nbytes() raised {type(ex).__name__}: {str(ex)[:120]}'
+            if _dict_sizes(ft) != before:
+                fail = fail or f'op {idx}: nbytes() changed the cached entries {before} -> {_dict_sizes(ft)}'
+        elif op['op'] == 'bad':
+            # a call that FAILS after the executor has set up (and cached) its bases: an array of Python objects / strings cannot be
+            # multiplied.  Whatever it raises, it must leave nothing behind that changes a later call (compared as always).
+            shp, Q, MN, shift = case_args(op)
+            junk = np.full(shp, 'x', dtype=object if op.get('kind') == 'object' else '<U1')
+            try:
+                call_impl(op['method'], op['dir'], junk, Q, MN, shift)
+            except Exception:
+                pass
+        elif op['op'] == 'disp':
+            # a transform requested through prysm.propagation (physical units): same shared executors, key computed there
+            c = op['case']
+            f = make_input(tuple(c['shape']), c['dtype'], c['seed'], c.get('layout'))
+            f0 = f.copy()
+            fn = getattr(pr, c['fn'])
+            args = (f, c['dx'], c['efl'], c['wvl'], c['out_dx'], tuple(c['samples']))
+            kw = {'shift': tuple(c['shift']), 'method': op['method']}
+            try:
+                got = fn(*args, **kw)
+                saved = pr.mdft, pr.czt
+                pr.mdft, pr.czt = ft.MatrixDFTExecutor(), ft.ChirpZTransformExecutor()
+                try:
+                    want = fn(*args, **kw)
+                finally:
+                    pr.mdft, pr.czt = saved
+                if not np.array_equal(f, f0):
+                    fail = fail or f'op {idx} ({c["fn"]}): the input array was modified in place'
+            except Exception as ex:
+                fail = fail or f'op {idx} ({c["fn"]}, method={op["method"]}): raised {type(ex).__name__}: {str(ex)[:120]}'
+                sizes.append(_dict_sizes(ft))
+                continue
+            lowp = prec == 32 if op['method'] == 'mdft' else (
+                c['dtype'] in ('complex64', 'float32') or (prec == 32 and not c['dtype'].startswith(('complex', 'float'))))
+            Qe, she, _ = dispatch_expect(c)
+            tl = max(1e-5, tol_for({'shape': c['shape'], 'Q': list(Qe), 'samples': c['samples'], 'shift': list(she),
+                                    'precision': 32})) if lowp else 1e-10
+            ok, err = close(got, want, tl)
+            if got.dtype != want.dtype:
+                fail = fail or f'op {idx} ({c["fn"]}): dtype {got.dtype} on the shared executor, {want.dtype} on a fresh one'
+            elif not ok:
+                fail = fail or (f'op {idx} ({c["fn"]}, method={op["method"]}, precision {prec}): result differs from fresh executors '
+                                f'by {err:.3g} (same arguments, same configuration)')
         else:
             shp, Q, MN, shift = case_args(op)
             if op['method'] == 'mdft_bp':
@@ -849,7 +945,7 @@ def run_history(ops, ft, config, collect=None):
                     fail = fail or f'op {idx} ({op["method"]}): the input array was modified in place'
             except Exception as ex:
                 fail = fail or f'op {idx}: raised {type(ex).__name__}: {str(ex)[:120]}'
-                sizes.append((len(ft.mdft.Ein), len(ft.czt.components)))
+                sizes.append(_dict_sizes(ft))
                 continue
             # which precision the engine works in: the matrix DFT in config.precision; the chirp-Z in that of the array it is
             # given (integer / boolean arrays are cast to config.precision first)
@@ -864,7 +960,7 @@ def run_history(ops, ft, config, collect=None):
             elif not ok:
                 fail = fail or (f'op {idx} ({op["method"]}, precision {prec}): result differs from a fresh executor by {err:.3g} '
                                 f'(same arguments, same configuration)')
-        sizes.append((len(ft.mdft.Ein), len(ft.czt.components)))
+        sizes.append(_dict_sizes(ft))
     config.precision = 64
     return fail, sizes
 
@@ -899,6 +995,30 @@ def systematic_histories():
             for d in (-1, 1):
                 hs.append([dict(base, op='call', method='mdft', dir=d), dict(base, op='call', method='mdft_bp', dir=d)])
                 hs.append([dict(base, op='call', method='mdft_bp', dir=d), dict(base, op='call', method='mdft', dir=d)])
+        # the same call before and after clear() (each dictionary must be rebuilt or still complete), with a query in between,
+        # every entry point of the engine
+        for m2 in ((method, 'mdft_bp') if method == 'mdft' else (method,)):
+            for d in (-1, 1):
+                a = dict(base, op='call', method=m2, dir=d)
+                hs.append([a, {'op': 'clear', 'which': method}, a])
+                hs.append([a, {'op': 'nbytes', 'which': method}, a, {'op': 'clear', 'which': method}, {'op': 'nbytes', 'which': method}, a])
+                hs.append([a, {'op': 'clear', 'which': 'czt' if method == 'mdft' else 'mdft'}, a])
+        for kind in ('object', 'str'):
+            a = dict(base, op='call', method=method, dir=-1)
+            hs.append([dict(base, op='bad', method=method, dir=-1, kind=kind), a])
+            hs.append([a, dict(base, op='bad', method=method, dir=-1, kind=kind), a])
+        # the same grid requested through prysm.propagation and directly (n Q equal on both axes: one output spacing), both orders
+        sq = {'shape': [4, 4], 'Q': [1.5, 1.5], 'samples': [5, 4], 'shift': [0.5, -1.25], 'dtype': 'complex128', 'seed': 7}
+        for fn_, d in (('focus_fixed_sampling', -1), ('unfocus_fixed_sampling', 1)):
+            for dt in ('complex128', 'complex64'):
+                cdisp = {'fn': fn_, 'shape': [4, 4], 'samples': [5, 4], 'dx': 0.5, 'efl': 100.0, 'wvl': 0.75, 'dtype': dt, 'seed': 11}
+                cdisp['out_dx'] = cdisp['wvl'] * cdisp['efl'] / (4 * cdisp['dx'] * 1.5)
+                cdisp['shift'] = [0.5 * cdisp['out_dx'], -1.25 * cdisp['out_dx']]
+                a = dict(sq, op='call', method=method, dir=d, dtype=dt)
+                b = {'op': 'disp', 'method': method, 'case': cdisp}
+                hs.append([a, b])
+                hs.append([b, a])
+                hs.append([b, {'op': 'clear', 'which': method}, b, a])
         variants = []
         for ax in (0, 1):
             for key, val in (('shape', 6), ('samples', 7), ('shift', 1.5), ('Q', 2.37)):
@@ -914,13 +1034,15 @@ def systematic_histories():
 def _histories(ctx, ft, pr, config):
     nh = ctx.scale(60, 1500)
     hs = systematic_histories()
-    nh = max(nh, len(hs) + ctx.scale(30, 1000))
+    nh = max(nh, len(hs) + ctx.scale(15, 1000))
     while len(hs) < nh:
         hs.append(gen_history(ctx.rng, int(ctx.rng.integers(3, 41))))
     lines, keep = [], []
     for ops in hs:
         fail, sizes = run_history(ops, ft, config)
         kinds = '+'.join(sorted({o['op'] if o['op'] != 'call' else o['method'] for o in ops}))
+        for o in ops:
+            ctx.hist['history_op:' + (o['op'] if o['op'] != 'call' else o['method'])] += 1
         ctx.case('history', {'ops': ops}, nontrivial=len(ops) > 1, tag=f'len{min(len(ops) // 10 * 10, 40)}/{kinds}')
         if fail:
             ctx.pred_fail('history', {'ops': ops}, fail)
@@ -933,6 +1055,27 @@ def _histories(ctx, ft, pr, config):
                     toks.append(None)
                 elif op['op'] == 'clear':
                     toks.append('C' if op['which'] == which else None)
+                elif op['op'] == 'nbytes':
+                    toks.append(None)
+                elif op['op'] == 'bad':
+                    # the matrix DFT sets up (and caches) its bases before the product fails; the chirp-Z refuses the array first
+                    if which == 'mdft' and op['method'] == 'mdft':
+                        shp, Q, MN, shift = case_args(op)
+                        key = _norm_key(which, op['dir'], shp, Q, MN, shift, prec, '')
+                        toks.append('K ' + ' '.join(k.replace(' ', '') for k in key))
+                    else:
+                        toks.append(None)
+                elif op['op'] == 'disp':
+                    if op['method'] != which:
+                        toks.append(None)
+                        continue
+                    c = op['case']
+                    Qe, she, dr = dispatch_expect(c)
+                    dt = str(make_input((1, 1), c['dtype'], 0).dtype)
+                    if which == 'czt' and not c['dtype'].startswith(('complex', 'float')):
+                        dt = f'float{prec}'
+                    key = _norm_key(which, dr if which == 'mdft' else -1, c['shape'], Qe, c['samples'], she, prec, dt)
+                    toks.append('K ' + ' '.join(k.replace(' ', '') for k in key))
                 elif op['method'] == which or (which == 'mdft' and op['method'] == 'mdft_bp'):
                     shp, Q, MN, shift = case_args(op)
                     dt = str(make_input((1, 1), op['dtype'], 0).dtype)
@@ -941,11 +1084,39 @@ def _histories(ctx, ft, pr, config):
                 else:
                     toks.append(None)
             lines.append(f'cache {nf} ' + ' '.join(t for t in toks if t))
-            keep.append((ops, which, toks, sizes))
+            keep.append((ops, which, toks, sizes, 1))
+            # the dictionaries as the source handles them (hand model's reference protocol; the generated protocol is tied to
+            # soundness by gen_*_cache_protocol): per-dictionary entry counts and "no KeyError"
+            pr_ = PROTO_REF[which]
+            lines.append(f'cache2 {nf} ' + ' '.join(','.join(pr_[k]) for k in ('stores', 'probe', 'miss', 'use', 'clear')) + ' '
+                         + ' '.join(t for t in toks if t))
+            keep.append((ops, which, toks, sizes, 2))
     rep = driver_parallel(lines, nproc=4)
-    for (ops, which, toks, sizes), row in zip(keep, rep):
+    for (ops, which, toks, sizes, machine), row in zip(keep, rep):
         out = row.split()
         it = iter(out)
+        if machine == 2:
+            # several-dictionary machine: the model never predicts a KeyError for the reference protocol (theorem); the counts of
+            # every dictionary are compared (a difference is recorded, not alarmed: granularity is an implementation choice)
+            cur2 = tuple(0 for _ in PROTO_REF[which]['stores'])
+            agree = True
+            for idx, t in enumerate(toks):
+                if t is not None:
+                    tag, lens = next(it).split(':')
+                    cur2 = tuple(int(v) for v in lens.split(','))
+                    ctx.hist[f'cache2_model:{which}:{tag}'] += 1
+                    if tag == 'err':
+                        ctx.disagree('history', {'ops': ops}, 'no KeyError (result equals a fresh executor)',
+                                     f'the dictionary machine with the reference protocol predicts a KeyError at op {idx}')
+                have2 = (sizes[idx][0], sizes[idx][2]) if which == 'mdft' else (sizes[idx][1],)
+                if have2 != cur2:
+                    agree = False
+                    msg = (f'dictionary model: executor {which} holds {have2} entries in {PROTO_REF[which]["stores"]} where the model has {cur2}')
+                    if msg not in ctx.notes and len(ctx.notes) < 20:
+                        ctx.notes.append(msg)
+                    break
+            ctx.hist['cache2_model:entry_counts_' + ('agree' if agree else 'differ')] += 1
+            continue
         cur = 0
         for idx, t in enumerate(toks):
             if t is not None:
@@ -1159,7 +1330,7 @@ def replay(inp):
         for o in c['ops']:
             print('   ', {k: v for k, v in o.items() if k != 'seed'})
         fail, sizes = run_history(c['ops'], ft, config)
-        print('  cache sizes (mdft, czt) after each op:', sizes)
+        print('  cache sizes (mdft.Ein, czt.components, mdft.Eout) after each op:', sizes)
         print('  ', fail or 'every call returned what a fresh executor returns')
         return fail is not None
     if item == 'dispatch':
@@ -1189,8 +1360,15 @@ MANIFEST_ENTRY = {
              'corollary routes_agree); (4) with the Q and shift conversions translated from focus_fixed_sampling / '
              'unfocus_fixed_sampling the kernel exponent of both engines is the physical x xi/(lambda f), per axis; (5) for every '
              'sequence of earlier calls and clear()s an executor call uses exactly the bases a fresh executor builds, given that '
-             'everything read while building (key components, config.*, hidden self.*) is a key field - an abstract machine: key '
-             'normalisation in _key and the two-dictionary layout are outside it. Every translated obligation is consumed by a property '
+             'everything read while building (key components, config.*, hidden self.*) is a key field; (6) the same for the dictionaries AS '
+             'THE SOURCE HANDLES THEM (several dictionaries - Ein and Eout -, only some probed in _setup_bases, written on the KeyError '
+             'path, indexed by dft2 / idft2 / dft2_backprop / idft2_backprop / czt2 after _setup_bases(key), re-initialised by clear(); '
+             'this protocol is TRANSLATED per executor and its soundness is an obligation): after every history of calls of any entry '
+             'point and clear()s a call raises no KeyError and every entry it indexes is the freshly built one (invariant by induction '
+             'over histories); examples show each soundness clause is necessary. (7) the normalisation of argument forms in _key and in the head of czt2 is TRANSLATED (per parameter: scalar broadcast, '
+             'element conversion float / int / as given; both engines alike) and two forms give the same key component exactly when they '
+             'denote the same sampling after the conversion (no TypeError for any form). Python equality of unconverted key elements '
+             '(1 == 1.0 in a shift) is outside the machine (history stream only). Every translated obligation is consumed by a property '
              'theorem. MODELLED AND COMPARED each run: NumPy execution of all routes (incl. dtype promotion, argument forms, dispatch '
              'layer, Wavefront wrappers, backprop entry points, histories) against the Lean model evaluated in Float and the Lean '
              'double-sum oracle; sizes beyond 26 only against a NumPy double sum.'),
